@@ -228,7 +228,7 @@ class WorldT6 : public World
             hist.push_back(op);
         }
         plan["history"] = hist;
-        plan["step_budget"] = 200000;
+        plan["step_budget"] = 60000;
         return plan;
     }
 
